@@ -659,6 +659,8 @@ class Circuit(Function):
                     )
                     for operand in replaced_operands:
                         self._add_user(operand, replaced_label)
+                    if cur_gate.gate_type != gate.INPUT:
+                        gates_for_block.add(replaced_label)
                     self._gates[replaced_label] = gate.Gate(
                         label=replaced_label,
                         gate_type=cur_gate.gate_type,
